@@ -17,7 +17,7 @@ def rand_tag(rnd):
     """a complete tag as left context: quoted values may contain the other kind of quote, `=`, `/` and blanks; boolean attributes and a
     self-closing slash may follow them"""
     t = '<' + rnd.choice(['a', 'div', 'br', 'img', 'x-y', 'li', 'svg:rect', 'xsl:if', 'a:b-c'])
-    for _ in range(rnd.randint(0, 3)):
+    for _ in range(rnd.randint(0, 3) if rnd.random() < .93 else rnd.randint(28, 40)):      # now and then a tag of several hundred characters
         t += rnd.choice([' ', '  '])
         t += rnd.choice(['hidden', 'b=c', 'title="it\'s"', "t='say \"hi\"'", 'class="x y"', 'd="a=b"', "e='/'", 'data-x="1/2"', 'q="\'"', "r='\"\"'", 'alt', 'n=1', 'v-on:click=go', 'xlink:href=x', 'a:b=c:d', 'xml:lang="en"'])
     t += rnd.choice(['>', '>', '/>', ' />', '> ', '>\t'])
